@@ -104,7 +104,7 @@ func (f *Rassoc) Call(s *slip.Scope, args slip.List, depth int) (found slip.Obje
 				found = a
 				break
 			}
-		} else if testFunc.Call(s, slip.List{k, item}, d2) != nil {
+		} else if testFunc.Call(s, slip.List{item, k}, d2) != nil {
 			found = a
 			break
 		}
